@@ -280,3 +280,58 @@ impl ser::SerializeStructVariant for CapStruct {
         Ok(self.finish())
     }
 }
+
+// ---------- text form (shared with runner/util.ml: nvalue_of_sexp) ----------
+fn xn(s: &str) -> String {
+    crate::dynval::hex(s.as_bytes())
+}
+impl std::fmt::Display for NV {
+    fn fmt(&self, f: &mut std::fmt::Formatter<'_>) -> std::fmt::Result {
+        use crate::dynval::{hex, hexi};
+        let many = |f: &mut std::fmt::Formatter<'_>, head: String, xs: &[NV]| -> std::fmt::Result {
+            write!(f, "({}", head)?;
+            for x in xs {
+                write!(f, " {}", x)?;
+            }
+            write!(f, ")")
+        };
+        match self {
+            NV::Bool(b) => write!(f, "(b {})", *b as u8),
+            NV::Int(k, z, u) => {
+                if k.signed() {
+                    write!(f, "(i {} {})", k.name(), hexi(*z))
+                } else {
+                    write!(f, "(i {} {:x})", k.name(), u)
+                }
+            }
+            NV::F32(b) => write!(f, "(f32 {:x})", b),
+            NV::F64(b) => write!(f, "(f64 {:x})", b),
+            NV::Char(c) => write!(f, "(c {:x})", *c as u32),
+            NV::Str(b) => write!(f, "(s {})", hex(b)),
+            NV::Bytes(b) => write!(f, "(y {})", hex(b)),
+            NV::None => write!(f, "none"),
+            NV::Some(x) => write!(f, "(some {})", x),
+            NV::Unit => write!(f, "unit"),
+            NV::UnitStruct(n) => write!(f, "(us {})", xn(n)),
+            NV::NewtypeStruct(n, x) => write!(f, "(ns {} {})", xn(n), x),
+            NV::Seq(xs) => many(f, "seq".into(), xs),
+            NV::Tuple(xs) => many(f, "tup".into(), xs),
+            NV::TupleStruct(n, xs) => many(f, format!("ts {}", xn(n)), xs),
+            NV::Map(kvs) => {
+                write!(f, "(map")?;
+                for (k, v) in kvs {
+                    write!(f, " {} {}", k, v)?;
+                }
+                write!(f, ")")
+            }
+            NV::Struct(n, fs) => {
+                write!(f, "(st {}", xn(n))?;
+                for (fname, v) in fs {
+                    write!(f, " ({} {})", xn(fname), v)?;
+                }
+                write!(f, ")")
+            }
+            NV::Variant(e, i, v, p) => write!(f, "(var {} {:x} {} {})", xn(e), i, xn(v), p),
+        }
+    }
+}
